@@ -213,6 +213,8 @@ def _denote(si, e):
     if k == 'num':
         return num_value(e[1]), [Fraction(0)] * 7, 0.0, True
     if k == 'name':
+        if e[1] + e[2] not in si.units and (e[2] not in si.units or (e[1] and e[1] not in si.prefixes)):
+            raise Domain('unitsParse')      # (a replayed tree over a unit the table no longer has)
         v, d, tol = si.named(e[1], e[2])
         return v, list(d), tol, True
     if k == 'bad':
